@@ -162,6 +162,9 @@ def render_arg(a, nm):
     return render(a, nm)
 
 
+HOLD_HOOK = None  # set by vf.build: records caller-side containers handed to Term constructors
+
+
 def to_term(e, nm=None):
     """AST -> data_algebra Term built through col()/lit() and operators (bypasses the parser)"""
     import data_algebra.expr_rep as er
@@ -195,7 +198,10 @@ def to_term(e, nm=None):
     if t == "m":
         recv = to_term(e[2], nm)
         if e[1] == "mapv":
-            args = [er.DictTerm({k: v for k, v in e[3][0][1]})] + [er.Value(a[1]) for a in e[3][1:]]
+            d = {k: v for k, v in e[3][0][1]}
+            if HOLD_HOOK is not None:
+                HOLD_HOOK(d)  # the caller's own dict object, handed to DictTerm
+            args = [er.DictTerm(d)] + [er.Value(a[1]) for a in e[3][1:]]
             return recv.mapv(*args)
         if e[1] in ("if_else", "where", "coalesce", "concat", "maximum", "minimum", "fmax", "fmin"):
             args = [to_term(a, nm) for a in e[3]]
